@@ -177,6 +177,10 @@ class Repo:
                         self.helpers_inlined = getattr(self, 'helpers_inlined', {})
                         self.helpers_inlined[rel] = ih
                 if os.environ.get('SA_NO_CANON') != '1':
+                    from .canon import expand_iter_sentinel_loops
+                    if expand_iter_sentinel_loops(rel, self.modules[rel]):
+                        self.modules[rel].reindex()
+                if os.environ.get('SA_NO_CANON') != '1':
                     from .canon import unroll_constant_loops
                     if unroll_constant_loops(rel, self.modules[rel]):
                         self.modules[rel].reindex()
